@@ -28,6 +28,7 @@ def eval_instance(tier, seed=0):
         "A4": F(I, [["const", 3], ["read", ["_model", "S", "g"]]]),       # model-level ref reached through a space
         "A5": F(I, [["const", 4], ["raise", 1]]),
         "A6": F(I, [["const", 5], ["none"]]),
+        "A7": F(I, [["const", 6], ["read", ["_model", "T", "q"]]]),       # own space's ref, by attribute path
         # b (in S)
         "B1": F(I, [["const", 10], ["call", ["_model", "T", "a"], [["k", 1]], "pos"]]),
         "B2": F(I, [["const", 10], ["call", ["_model", "T", "a"], [["k", 1]], "sub"], ["read", ["r"]]]),
@@ -42,9 +43,17 @@ def eval_instance(tier, seed=0):
         "C3": F(I, [["const", 200], ["call", ["b"], [["k", 1]], "pos"], ["read", ["_space", "r"]]]),
         "C4": F(I, [["const", 300], ["call", ["_model", "T", "a"], [["k", 1]], "pos"],
                     ["call", ["b"], [["k", 1]], "pos"]], catch=True),
+        # the same reference read by path in the caller BEFORE the call and again below it
+        "C5": F(I, [["const", 400], ["read", ["_model", "T", "q"]], ["call", ["b"], [["k", 1]], "pos"]]),
     }
-    alts = {"a": ["A1", "A2", "A3", "A4", "A5", "A6"], "b": ["B1", "B2", "B3", "B4", "B5"],
-            "c": ["C1", "C2", "C3", "C4"]}
+    alts = {"a": ["A1", "A2", "A3", "A4", "A5", "A6", "A7"], "b": ["B1", "B2", "B3", "B4", "B5"],
+            "c": ["C1", "C2", "C3", "C4", "C5"]}
+    # always included: one reference reached by attribute path at several depths of one
+    # evaluation, with uncached cells in between (the hand-over of pending reference reads
+    # from an uncached callee to its callers, system.py CallStack.pop)
+    curated = [("A7", "B1", "C5", False, True, True), ("A7", "B1", "C5", False, True, False),
+               ("A7", "B1", "C5", False, False, True), ("A3", "B1", "C3", False, True, True),
+               ("A7", "B3", "C5", True, False, True), ("A4", "B4", "C1", False, True, True)]
     sigs = {"a": ["i"], "b": ["i"], "c": ["i"]}
 
     def defs(fa, fb, fc, ca, cb, cc):
@@ -65,9 +74,9 @@ def eval_instance(tier, seed=0):
                                     [True, False], [True, False], [True, False]))
     rng = random.Random(seed)
     if tier == "quick":
-        combos = rng.sample(combos, 12)
+        combos = curated + rng.sample(combos, 10)
     elif tier == "thorough":
-        combos = rng.sample(combos, 120)
+        combos = curated + rng.sample(combos, 120)
     inits = [defs(*c) for c in combos]
     ops = []
     for p, c in ((["T"], "a"), (["S"], "b"), (["S"], "c")):
